@@ -51,12 +51,12 @@ const c14Rule = "one evaluation = one selection (configuration, entry point, see
 	"distinct = distinct (configuration, query)"
 
 func TestVerif_C14_select(t *testing.T) {
-	rec := vh.NewRec("C14", "select", "rapid: 1-3 generations x 0-8 weighted groups x 0-5 CIDRs (any prefix length incl. /0 /32 /128, leading-zero networks, top of the address space, host bits set, duplicates, sub-/super-prefixes of earlier subnets, unparsable strings; weights absent/0/equal/2^32-1; absent or empty subnet lists; removed generations; 1 in 4 configurations loaded through a TOML file), 1-8 queries each (seeds: all-zero, all-0xff, 0-3 bytes, varint edge shapes, 16/32 random bytes; library versions 0-5,100,2^32-1; Select and SelectPhantom weighted/unweighted with v4/v6/no filter); "+c14Rule)
+	rec := vh.NewRec("C14", "select", "rapid: 1-3 generations x 0-8 weighted groups x 0-5 CIDRs (any prefix length incl. /0 /32 /128, leading-zero networks, top of the address space, host bits set, duplicates, sub-/super-prefixes of earlier subnets, IPv4-mapped IPv6 notation ::ffff:a.b.c.d/n, unparsable strings; weights absent/0/equal/2^32-1; absent or empty subnet lists; removed generations; 1 in 4 configurations loaded through a TOML file), 1-8 queries each (seeds: all-zero, all-0xff, 0-3 bytes, varint edge shapes, 16/32 random bytes; library versions 0-5,100,2^32-1; Select and SelectPhantom weighted/unweighted with v4/v6/no filter); "+c14Rule)
 	defer rec.Flush()
 	rec.Require("result:address", "result:error", "legacy-libver", "libver:0", "libver:1", "libver:2", "libver:3", "libver:4",
 		"leading-zero-net", "one-address-net", "zero-weight-present", "zero-total-weight", "ref-equal", "ref-weight-tie",
 		"entry:select", "entry:client-w", "entry:client-u", "fam:v4", "fam:v6", "fam:any", "via-toml",
-		"offset:top", "offset:bottom", "randport-granted", "unknown-or-removed-generation", "unparsable-cidr-present")
+		"offset:top", "offset:bottom", "randport-granted", "unknown-or-removed-generation", "unparsable-cidr-present", "mapped-cidr-present")
 	env := &c14Env{dir: t.TempDir()}
 	if c14Replay(t, rec, env) {
 		return
@@ -101,6 +101,14 @@ func c14Shapes() []c14Shape {
 		{"unparsable only", g(c14Group{Weight: 1, Rand: -1, Subnets: []string{"garbage"}}), true},
 		{"unparsable next to valid", g(c14Group{Weight: 1, Rand: -1, Subnets: []string{"192.0.2.0/24", "10.0.0.0/33", "2001:db8::/64"}}), true},
 		{"two groups of weight 2^32-1", g(c14Group{Weight: 4294967295, Rand: 1, Subnets: both}, c14Group{Weight: 4294967295, Rand: 0, Subnets: []string{"198.51.100.0/24", "2001:db8:1::/64"}}), true},
+		// IPv4-mapped IPv6 notation: ambiguous family; a v6 request must never get 4 bytes, a v4 request never a non-IPv4 address
+		{"mapped /120 only", g(c14Group{Weight: 1, Rand: 1, Subnets: []string{"::ffff:198.51.100.0/120"}}), true},
+		{"IPv4 + mapped /120", g(c14Group{Weight: 1, Rand: -1, Subnets: []string{"192.0.2.0/24", "::ffff:198.51.100.0/120"}}), true},
+		{"mapped /120 + tiny IPv6", g(c14Group{Weight: 1, Rand: -1, Subnets: []string{"192.0.2.0/24", "::ffff:198.51.100.0/120", "2001:db8::/127"}}), true},
+		{"mapped /128 + IPv6 /128", g(c14Group{Weight: 1, Rand: 0, Subnets: []string{"::ffff:203.0.113.7/128", "2001:db8::1/128"}}), true},
+		{"mapped /96 (all of IPv4) and /104", g(c14Group{Weight: 1, Rand: -1, Subnets: []string{"::ffff:0.0.0.0/96", "::ffff:10.0.0.0/104"}}), true},
+		{"mapped text /90 (plain IPv6 prefix covering the mapped range)", g(c14Group{Weight: 1, Rand: -1, Subnets: []string{"::ffff:198.51.100.0/90", "192.0.2.0/24"}}), true},
+		{"mapped group beside an IPv6 group", g(c14Group{Weight: 1, Rand: 1, Subnets: []string{"::ffff:198.51.100.0/120"}}, c14Group{Weight: 1, Rand: 0, Subnets: []string{"2001:db8::/64", "192.0.2.0/24"}}), true},
 		{"two /32 (legacy v0 id space of size 0)", g(c14Group{Weight: 1, Rand: -1, Subnets: []string{"192.0.2.1/32", "192.0.2.2/32", "2001:db8::1/128", "2001:db8::2/128"}}), true},
 	}
 }
@@ -119,9 +127,9 @@ func c14FixedSeeds() [][]byte {
 }
 
 func TestVerif_C14_degenerate(t *testing.T) {
-	rec := vh.NewRec("C14", "degenerate", "exhaustive product of 23 degenerate configuration shapes (no/removed generation, absent/empty group list, zero/absent weights, absent/empty subnet lists, single-family, one-address, all-zero, /0, leading-zero, top-of-space, unparsable, 2^32-1 weights) x {object built directly, loaded from TOML} x 7 seed shapes x library versions 0-4 x {v4,v6} for Select and x {v4,v6,any} for SelectPhantom weighted/unweighted; "+c14Rule)
+	rec := vh.NewRec("C14", "degenerate", "exhaustive product of 30 degenerate configuration shapes (IPv4-mapped IPv6 networks alone / beside IPv4 / beside tiny or ordinary IPv6, no/removed generation, absent/empty group list, zero/absent weights, absent/empty subnet lists, single-family, one-address, all-zero, /0, leading-zero, top-of-space, unparsable, 2^32-1 weights) x {object built directly, loaded from TOML} x 7 seed shapes x library versions 0-4 x {v4,v6} for Select and x {v4,v6,any} for SelectPhantom weighted/unweighted; "+c14Rule)
 	defer rec.Flush()
-	rec.Require("zero-total-weight", "result:error", "result:address", "via-toml", "legacy-libver", "leading-zero-net", "one-address-net")
+	rec.Require("zero-total-weight", "result:error", "result:address", "via-toml", "legacy-libver", "leading-zero-net", "one-address-net", "mapped-cidr-present")
 	env := &c14Env{dir: t.TempDir()}
 	if c14Replay(t, rec, env) {
 		return
